@@ -344,7 +344,7 @@ def plan(tier, seed):
     global _SEED
     _SEED = seed
     return [('boundary', len(_boundary_batches(tier, seed))),
-            ('random', 250 if tier == 'quick' else 12000),
+            ('random', 1200 if tier == 'quick' else 12000),
             ('big', 8 if tier == 'quick' else 48)]
 
 
